@@ -373,6 +373,10 @@ def hilbert_cpu_list(meta, scaling, select, infofile):
             if isinstance(func_test, Array):
                 func_test = func_test.values
             inds = np.argwhere(func_test).ravel()
+            if len(inds) == 0:
+                # The selected interval is narrower than the sampling (levelmax > 18):
+                # no pre-selection is possible, all files are read
+                return
             start = xyz_centers[inds.min()] - (half_dxmin * scaling.units)
             end = xyz_centers[inds.max()] + (half_dxmin * scaling.units)
             bounding_box["{}min".format(c)] = start._array / box_size
